@@ -14,7 +14,7 @@ CLEAN_RC=$(rundemo clean)
 if ! git apply --check $SRC/patch.diff 2>/dev/null; then echo "{\"id\":\"$ID\",\"x\":\"$X\",\"error\":\"patch does not apply\"}" > $RES; cd /; git -C /repo worktree remove --force $WT; exit 1; fi
 git apply $SRC/patch.diff
 PATCH_RC=$(rundemo patched)
-/tmp/wt/baseline_check.py $WT > $OUT/${ID}_$X.suite.txt 2>&1; SUITE_RC=$?
+/verif/tools/baseline_check.py $WT > $OUT/${ID}_$X.suite.txt 2>&1; SUITE_RC=$?
 git checkout -q -- . ; git clean -fdq
 cd /
 git -C /repo worktree remove --force $WT >/dev/null 2>&1
